@@ -84,6 +84,16 @@ Definition parents_of (P : Type) (i : ind P) : list P :=
 
 Definition all_members (gs : list gen) : list nat := concat (map g_members gs).
 
+(* a python loop whose body may raise: the first [None] aborts the loop *)
+Fixpoint ofold (A B : Type) (f : A -> B -> option A) (xs : list B) (a : A) : option A :=
+  match xs with
+  | [] => Some a
+  | x :: t => match f a x with None => None | Some a' => ofold f t a' end
+  end.
+
+(* in-place update of one heap cell *)
+Definition upd (A : Type) (l : list A) (r : nat) (x : A) : list A := firstn r l ++ x :: skipn (S r) l.
+
 (* ------------------------------------------------------------------------------------- *)
 (* python dict: association list with insertion semantics                                *)
 (* ------------------------------------------------------------------------------------- *)
@@ -119,45 +129,44 @@ Definition enc_indv (h : list (ind pref)) (i : ind pref) : ind nat :=
 
 Definition enc_ind (h : list (ind pref)) (r : nat) : ind nat := enc_indv h (get h r).
 
+Definition has_key (m : dict) (k : nat) : bool := existsb (Nat.eqb k) (dict_keys m).
+
 (* extract_intermediate_parents(ind):
      for parent in ind.parents:
-         if not parent.has_native_generation:
+         if parent.uid not in generations_map and parent.uid not in parents_map:
              parents_map[parent.uid] = parent
-             extract_intermediate_parents(parent)                                         *)
-Fixpoint extract (d : nat) (h : list (ind pref)) (pm : dict) (r : nat) : option dict :=
+             extract_intermediate_parents(parent)
+   ([parent.uid] of a uid string raises AttributeError)                                   *)
+Fixpoint extract (d : nat) (h : list (ind pref)) (gm pm : dict) (r : nat) : option dict :=
   match d with
   | O => None
   | S d' =>
-    fold_left (fun acc x =>
-      match acc with
-      | None => None
-      | Some pm1 =>
+    ofold (fun pm1 x =>
         match x with
         | PStr _ => None
         | PRef p =>
-          match i_ng (get h p) with
-          | Some _ => Some pm1
-          | None => extract d' h (dict_set pm1 (uid_of h p) p) p
-          end
-        end
-      end) (parents_of (get h r)) (Some pm)
+          if has_key gm (uid_of h p) || has_key pm1 (uid_of h p) then Some pm1
+          else extract d' h gm (dict_set pm1 (uid_of h p) p) p
+        end) (parents_of (get h r)) pm
   end.
 
-(* generations_map = {ind.uid: ind for ind in chain( *generations_list)} *)
-Definition gens_map (h : list (ind pref)) (gs : list gen) : dict :=
-  fold_left (fun m r => dict_set m (uid_of h r) r) (all_members gs) [].
+(* generations_map = {ind.uid: ind for ind in chain( *generations_list)} where generations_list
+   is the generations followed by the archive snapshots *)
+Definition pool_roots (H : hist) : list nat := all_members (h_gens H) ++ concat (h_snaps H).
+
+Definition gens_map (h : list (ind pref)) (roots : list nat) : dict :=
+  fold_left (fun m r => dict_set m (uid_of h r) r) roots [].
 
 (* for individual in generations_map.values(): extract_intermediate_parents(individual) *)
 Definition parents_map (d : nat) (h : list (ind pref)) (gm : dict) : option dict :=
-  fold_left (fun acc r => match acc with None => None | Some pm => extract d h pm r end)
-            (dict_vals gm) (Some []).
+  ofold (fun pm r => extract d h gm pm r) (dict_vals gm) [].
 
 (* parents_map.update(generations_map) *)
 Definition dict_update (m m2 : dict) : dict := fold_left (fun acc kv => dict_set acc (fst kv) (snd kv)) m2 m.
 
 (* _flatten_generations_list: the pool, as references *)
 Definition pool_refs (d : nat) (H : hist) : option (list nat) :=
-  let gm := gens_map (h_heap H) (h_gens H) in
+  let gm := gens_map (h_heap H) (pool_roots H) in
   match parents_map d (h_heap H) gm with
   | None => None
   | Some pm => Some (dict_vals (dict_update pm gm))
@@ -186,7 +195,7 @@ Definition set_ng (hp : list (ind pref)) (k r : nat) : list (ind pref) :=
   | Some i =>
     match i_ng i with
     | Some _ => hp
-    | None => firstn r hp ++ mkInd (i_uid i) (i_fit i) (i_graph i) (i_meta i) (Some k) (i_op i) :: skipn (S r) hp
+    | None => upd hp r (mkInd (i_uid i) (i_fit i) (i_graph i) (i_meta i) (Some k) (i_op i))
     end
   end.
 
@@ -272,9 +281,8 @@ Definition set_parents (hp : list (ind pref)) (r : nat) (ps : list nat) : list (
     match i_op i with
     | None => hp
     | Some o =>
-      firstn r hp ++
-      mkInd (i_uid i) (i_fit i) (i_graph i) (i_meta i) (i_ng i)
-            (Some (mkPop (p_type o) (p_ops o) (p_uid o) (map PRef ps))) :: skipn (S r) hp
+      upd hp r (mkInd (i_uid i) (i_fit i) (i_graph i) (i_meta i) (i_ng i)
+                      (Some (mkPop (p_type o) (p_ops o) (p_uid o) (map PRef ps))))
     end
   end.
 
@@ -295,17 +303,16 @@ Fixpoint relink (d : nat) (m : dict) (hp : list (ind pref)) (r : nat) : option (
     | Some o =>
       let (hp1, ps) := resolve_list m hp (p_parents o) in
       let hp2 := set_parents hp1 r ps in
-      fold_left (fun acc p =>
-        match acc with
-        | None => None
-        | Some hq => if has_str (get hq p) then relink d' m hq p else Some hq
-        end) ps (Some hp2)
+      ofold (fun hq p => if has_str (get hq p) then relink d' m hq p else Some hq) ps hp2
     end
   end.
 
 (* _deserialize_parent_individuals(list(chain( *history.generations)), map) *)
 Definition relink_all (d : nat) (m : dict) (hp : list (ind pref)) (rs : list nat) : option (list (ind pref)) :=
-  fold_left (fun acc r => match acc with None => None | Some hq => relink d m hq r end) rs (Some hp).
+  ofold (fun hq r => relink d m hq r) rs hp.
+
+(* the individuals from which the decoder re-links parents: the members of the generations *)
+Definition relink_roots (gs : list gen) (snaps : list (list nat)) : list nat := all_members gs.
 
 Definition dec_obj (o : eobj) : objinfo :=
   match o with EObj o => o | ELegacyMulti b => mkObj b [] end.
@@ -326,7 +333,7 @@ Definition decode_history (d : nat) (E : ehist) : option hist :=
     | EGens _ => (hp2, gs)
     | ELists _ => wrap_lists hp2 0 (map g_members gs)
     end in
-  match relink_all d m hp3 (all_members gs3) with
+  match relink_all d m hp3 (relink_roots gs3 snaps) with
   | None => None
   | Some hp4 => Some (mkHist hp4 (dec_obj (e_obj E)) gs3 snaps (e_tuning E) (e_dir E))
   end.
@@ -346,20 +353,17 @@ Inductive reach (H : hist) : nat -> Prop :=
 Definition uid_faithful (H : hist) : Prop :=
   forall r1 r2, reach H r1 -> reach H r2 -> uid_of (h_heap H) r1 = uid_of (h_heap H) r2 -> r1 = r2.
 
-(* the members of the pool: generation members and, recursively, their parents that have no
-   native generation *)
-Inductive in_pool (H : hist) : nat -> Prop :=
-| in_pool_gen : forall r, gen_member H r -> in_pool H r
-| in_pool_parent : forall c p, in_pool H c -> In (PRef p) (parents_of (get (h_heap H) c)) ->
-                               i_ng (get (h_heap H) p) = None -> in_pool H p.
+(* reachable from the members of the generations alone *)
+Inductive greach (H : hist) : nat -> Prop :=
+| greach_gen : forall r, gen_member H r -> greach H r
+| greach_parent : forall c p, greach H c -> In (PRef p) (parents_of (get (h_heap H) c)) -> greach H p.
 
-(* pool-closed: every parent slot of a reachable individual holds an object; a parent that has
-   a native generation is a member of some generation; archive members are pool members *)
-Record pool_closed (H : hist) : Prop := {
-  pc_objects : forall c x, reach H c -> In x (parents_of (get (h_heap H) c)) -> exists p, x = PRef p;
-  pc_native : forall c p, reach H c -> In (PRef p) (parents_of (get (h_heap H) c)) ->
-                          i_ng (get (h_heap H) p) <> None -> gen_member H p;
-  pc_snaps : forall r, snap_member H r -> in_pool H r }.
+(* guard of the round-trip theorems: every parent slot of a reachable individual holds an object
+   (not a uid string), and every archive member is a member of a generation or an ancestor of
+   one (the decoder re-links parents starting from the generation members only) *)
+Record well_formed (H : hist) : Prop := {
+  wf_objects : forall c x, reach H c -> In x (parents_of (get (h_heap H) c)) -> exists p, x = PRef p;
+  wf_archive : forall r, snap_member H r -> greach H r }.
 
 Definition pref_rel (R : nat -> nat -> Prop) (x y : pref) : Prop :=
   match x, y with
@@ -579,6 +583,14 @@ Definition uid_faithful_b (H : hist) : bool := nodup_b (map (uid_of (h_heap H)) 
 Definition no_str_b (H : hist) : bool :=
   forallb (fun r => negb (has_str (get (h_heap H) r))) (reach_list H).
 
+(* every archive member is reachable from the members of the generations *)
+Definition greach_list (H : hist) : list nat :=
+  let roots := all_members (h_gens H) in
+  reach_walk (S (length roots + slots (h_heap H) + length (h_heap H))) (h_heap H) roots [].
+
+Definition arch_covered_b (H : hist) : bool :=
+  forallb (fun r => existsb (Nat.eqb r) (greach_list H)) (concat (h_snaps H)).
+
 (* closedness of an encoded history *)
 Definition mem_b (x : nat) (l : list nat) : bool := existsb (Nat.eqb x) l.
 Definition e_closed_b (E : ehist) : bool :=
@@ -625,7 +637,7 @@ Definition holds_b (o : obs) : bool :=
 
 (* classification used by the driver: is the saved history inside the guard of the theorems *)
 Definition guard_b (o : obs) : bool :=
-  uid_faithful_b (ob_mem o) && no_str_b (ob_mem o) && e_closed_b (ob_json o).
+  uid_faithful_b (ob_mem o) && no_str_b (ob_mem o) && arch_covered_b (ob_mem o).
 
 (* light save: OptHistory.save(is_save_light=True) writes the encoding of the lightened history *)
 Definition light_agree (d : nat) (H : hist) (E : ehist) : bool :=
@@ -665,7 +677,7 @@ Definition LEGACY_MODULE_PATHS : list (string * string) := [
   ("fedot.core.log", "golem.core.log");
   ("fedot.core.adapter", "golem.core.adapter");
   ("fedot.core.dag", "golem.core.dag");
-  ("fedot.core.utilities", "golem.core.utilities") ].
+  ("fedot.core.utilities", "golem.utilities") ].
 
 (* the classes / functions and modules that exist in the current tree (the driver checks on
    every run that each of them is importable) *)
@@ -689,7 +701,7 @@ Definition CURRENT_MODULES : list string := [
   "golem.core.log";
   "golem.core.adapter";
   "golem.core.dag";
-  "golem.core.utilities" ].
+  "golem.utilities" ].
 
 Fixpoint assoc_str (k : string) (l : list (string * string)) : option string :=
   match l with
@@ -753,9 +765,10 @@ Definition resolves_to_current (p : string) : bool :=
 
 Definition legacy_classes_ok : bool := forallb (fun kv => resolves_to_current (fst kv)) LEGACY_CLASS_PATHS.
 
-Definition legacy_modules_ok : bool :=
-  forallb (fun kv => existsb (String.eqb (legacy_module_map (fst kv))) CURRENT_MODULES &&
-                     String.eqb (legacy_module_map (fst kv)) (snd kv)) LEGACY_MODULE_PATHS.
+Definition legacy_module_ok (kv : string * string) : bool :=
+  existsb (String.eqb (legacy_module_map (fst kv))) CURRENT_MODULES && String.eqb (legacy_module_map (fst kv)) (snd kv).
+
+Definition legacy_modules_ok : bool := forallb legacy_module_ok LEGACY_MODULE_PATHS.
 
 (* comparison of the tables with the dicts of the running implementation, and of the model's
    resolution with what Serializer._get_class returned *)
